@@ -194,10 +194,16 @@ def pi_need(mol, i):
     if not a.bracket:
         if el == "C":
             return 1 if sig <= 3 else (0 if sig == 4 else None)
-        if el in ("N", "P"):
+        if el == "N":
             return 1 if sig == 2 else (0 if sig == 3 else None)
-        if el in ("O", "S"):
+        if el == "P":
+            # phosphinine-type p (2) needs a ring double bond; substituted p (3) and phosphole-oxide-type p(=O)(R) (5) do not
+            return 1 if sig == 2 else (0 if sig in (3, 5) else None)
+        if el == "O":
             return 0 if sig == 2 else None
+        if el == "S":
+            # thiophene-type s (2), sulfoxide-type s(=O) (4), sulfone-type s(=O)(=O) (6): lone pair donor, no ring double bond
+            return 0 if sig in (2, 4, 6) else None
         return None
     tot = sig + (a.hcount or 0)
     if el == "C" and a.charge == 0:
